@@ -29,7 +29,7 @@ Norm(d) ==
     [] d[1] = "imap" -> <<"other", "imap">>
     [] d[1] = "map" -> <<"map", [k \in DOMAIN d[2] |-> Norm(d[2][k])]>>
     [] d[1] = "tmapint" -> <<"map", [k \in DOMAIN d[2] |-> NumI(d[2][k])], "tmapint">>
-    [] d[1] = "struct" -> <<"struct", [k \in DOMAIN d[2] |-> Norm(d[2][k])], {d[3][i] : i \in 1..Len(d[3])}>>   \* hidden field names: a sequence in the description
+    [] d[1] = "struct" -> <<"struct", [k \in DOMAIN d[2] |-> Norm(d[2][k])], d[3]>>   \* d[3]: the names of the unexported fields, a sequence
     [] d[1] = "ptrstruct" -> <<"other", "ptrstruct">>
     [] d[1] = "slice" -> Arr([i \in 1..Len(d[2]) |-> Norm(d[2][i])])
     [] d[1] = "strs" -> <<"arr", [i \in 1..Len(d[2]) |-> Str(d[2][i])], "strs">>
